@@ -14,7 +14,10 @@ import (
 // key and IV drawn from the random source in this call; a certificate that
 // cannot be used is a hard error, never a silent downgrade to plaintext.
 func Harness_C08_nodowngrade() {
-	layout := verifChoose("keyLayout", 6)
+	layout := 1 // the run registered under C06 fixes the layout (a real encryption certificate): the layouts are C08's subject
+	if verifParam("keylayout.fixed", 0) == 0 {
+		layout = verifChoose("keyLayout", 6)
+	}
 	r := idpScenario(layout, false, false)
 	if err := (DefaultAssertionMaker{}).MakeAssertion(r.req, r.session); err != nil {
 		return
@@ -57,7 +60,7 @@ func Harness_C08_nodowngrade() {
 		verifAssert(doc != nil, "C08/plaintext-is-the-signed-assertion")
 		if doc != nil {
 			verifAssert(doc.SelectAttrValue("ID", "") == r.req.Assertion.ID, "C08/plaintext-is-the-made-assertion")
-			verifAssert(verifSignedBy(doc, 0, 0), "C08/decrypted-assertion-is-signed-by-idp")
+			verifAssert(verifSignedBy(doc, 0, 0), "C06+C08/decrypted-assertion-is-signed-by-idp")
 		}
 	}
 	// ... and with no other key
